@@ -15,19 +15,21 @@ Section ControllerIteration.
   Variable lev : nat -> @level K X.
   Variable xf : nat -> @xfer K X.
   Variable tstart : nat -> K.
+  Variable lend : nat -> @endp K.
   Variable P L : nat.
   Hypothesis HL : 0 < L.
   Hypothesis Hlev : forall l, l < L -> level_ok kO kmul ksub keqb imex (lev l) /\ 1 <= lM (lev l).
   Hypothesis Hxf : forall l, S l < L ->
     xfer_ok kO kI kadd ksub (xf l) (lev l) (lev (S l)) /\
     (forall m, 1 <= m <= lM (lev l) -> xRcoll (xf l) (lM (lev (S l))) m = if Nat.eqb m (lM (lev l)) then kI else kO).
+  Hypothesis Hcopy : 1 < L -> forall l, l < L -> erin (lend l) && negb (edcu (lend l)) = true.
   Variable R0 : nat -> @lvst K X.
   Hypothesis H0 : forall p, p < P ->
     holds_solution kO kadd kmul ksub (tstart p) imex (lev 0) (stau (R0 p)) (su (R0 p), sf (R0 p)).
-  Hypothesis Hchain : forall p, 0 < p < P -> forall x, su (R0 p) 0 x = su (R0 (p - 1)) (lM (lev 0)) x.
+  Hypothesis Hchain : forall p, 0 < p < P -> forall x, su (R0 p) 0 x = end_value kO kadd kmul imex lev lend 0 (R0 (p - 1)) x.
 
   Theorem controller_iteration_fixed_point nsw jacobi :
-    let B := run_ops kO kadd kmul ksub keqb imex lev xf tstart (pfasst_iteration P L nsw jacobi) (init_block kO P R0) in
+    let B := run_ops kO kadd kmul ksub keqb imex lev xf tstart lend (pfasst_iteration P L nsw jacobi) (init_block kO P R0) in
     forall p, p < P ->
       svalid (B p 0) = true /\
       same (lev 0) (su (B p 0), sf (B p 0)) (su (R0 p), sf (R0 p)).
@@ -35,12 +37,13 @@ Section ControllerIteration.
     intros B p Hp.
     assert (Hv : svalid (B p 0) = true).
     { unfold B.
-      rewrite (flags_run_ops kO kadd kmul ksub keqb imex lev xf tstart (pfasst_iteration P L nsw jacobi) (init_block kO P R0)
-                 (fun p l => match l with 0 => Nat.ltb p P | S _ => false end)) by (intros q [|l]; reflexivity).
+      pose proof (flags_run_ops kO kadd kmul ksub keqb imex lev xf tstart lend (pfasst_iteration P L nsw jacobi) (init_block kO P R0)
+                    (fun p l => match l with 0 => Nat.ltb p P | S _ => false end, fun _ _ => false)) as HF.
+      destruct (HF ltac:(intros q [|l]; split; reflexivity) p 0) as [Hfl _]. rewrite Hfl.
       apply (pfasst_iteration_valid P L nsw jacobi); [|exact Hp|lia].
-      intros q l Hq Hl. assert (l = 0) by lia. subst l. apply Nat.ltb_lt. exact Hq. }
+      intros q l Hq Hl. assert (l = 0) by lia. subst l. cbn [fst]. apply Nat.ltb_lt. exact Hq. }
     split; [exact Hv|].
-    exact (block_fixed_point_any_schedule kO kI kadd kmul ksub kopp keqb Rth keqb_true imex lev xf tstart P L Hlev Hxf R0 H0 Hchain
+    exact (block_fixed_point_any_schedule kO kI kadd kmul ksub kopp keqb Rth keqb_true imex lev xf tstart lend P L Hlev Hxf Hcopy R0 H0 Hchain
              (pfasst_iteration P L nsw jacobi) (pfasst_iteration_in_bounds L P nsw jacobi) p Hp HL Hv).
   Qed.
 End ControllerIteration.
